@@ -161,6 +161,8 @@ def make_algo(name, params, prog, spylog=None):
         return A.WeighMeanVar(lookback=off("lookback", 4), lag=off("lag", 0), covar_method="standard", **p)
     if name == "TargetVol":
         return A.TargetVol(p.pop("vol"), lookback=off("lookback", 4), lag=off("lag", 0), covar_method="standard", **p)
+    if name == "PTE_Rebalance":
+        return A.PTE_Rebalance(p["cap"], frame(prog, prog["extra"][p["weights"]]), lookback=off("lookback", 4), lag=off("lag", 0), covar_method="standard", annualization_factor=p.get("af", 1))
     if name == "ScaleWeights":
         return A.ScaleWeights(p["scale"])
     if name == "LimitDeltas":
